@@ -283,6 +283,7 @@ def main(argv):
         "distribution": res.get("distribution", {}),
         "model_vm_compute_crosschecked": int(res.get("model_vm_compute_crosschecked", 0)),
         "provider_protocol_runs_checked": res.get("provider_protocol_runs_checked", "not applicable to this property"),
+        "no_internal_error_scope": res.get("no_internal_error_scope", "not applicable to this property"),
         "known_findings_reconfirmed": known_lines,
         "proof_status": "checked" if proof_ok else "BROKEN: " + "; ".join(broken)[:2000],
         "coqchk": chk or "run in the thorough tier only (coqchk -o on the property's module and everything it depends on)",
